@@ -89,8 +89,9 @@ func (db *RockDB) sDelete(tn int64, key []byte, wb engine.WriteBatch) (int64, er
 	wb.Delete(sk)
 
 	db.topLargeCollKeys.Update(key, int(0))
-	if db.cfg.ExpirationPolicy == common.WaitCompact {
-		// for compact ttl , we can just delete the meta
+	if db.cfg.ExpirationPolicy == common.WaitCompact && keyInfo.OldHeader.ValueVersion < tn {
+		// for compact ttl , we can just delete the meta (unless a set re-created by an entry with this
+		// same timestamp would get the same generation number: then the members go physically)
 		return num, nil
 	}
 	start := keyInfo.RangeStart
